@@ -137,7 +137,10 @@ pub enum Op {
     DeliverReframed { t: usize, split: usize },
     /// cross-protocol delivery: the formatted pre-hash input OID || PH(M) of a HashML-DSA tuple
     /// reaches the pure ML-DSA endpoint as if it were the message
-    DeliverCross { t: usize },
+    /// `shift`: the context/message boundary of the presented input is moved by that many bytes into the
+    /// formatted part; `full`: the whole formatted input dom || len || ctx || ... is presented as the
+    /// message under an empty context (what a verifier with an unframed fallback would accept)
+    DeliverCross { t: usize, shift: u8, full: bool },
     /// replay of an intact tuple with an over-long context: kind 0 appends 256 zero bytes (same length
     /// modulo 256), kind 1 appends 512 bytes, kind 2 replaces the context by 256 bytes, kind 3 by 257
     DeliverLongCtx { t: usize, kind: u8 },
@@ -182,7 +185,7 @@ impl Op {
             Op::PkToBytes { src } => json!({"op":"pk_to_bytes","src":src}),
             Op::DeliverAs { t, mode } => json!({"op":"deliver_as_other_mode","tuple":t,"mode":mode.name()}),
             Op::DeliverReframed { t, split } => json!({"op":"deliver_reframed","tuple":t,"split":split}),
-            Op::DeliverCross { t } => json!({"op":"deliver_cross_protocol","tuple":t}),
+            Op::DeliverCross { t, shift, full } => json!({"op":"deliver_cross_protocol","tuple":t,"shift":shift,"full":full}),
             Op::DeliverLongCtx { t, kind } => json!({"op":"deliver_overlong_context","tuple":t,"kind":kind}),
             Op::SignWrapped { sk, msg, ctx_len, mode, rnd } => json!({"op":"sign_over_wrapped_length_byte","sk":sk,"msg":hx(msg),"ctx_len":ctx_len,"mode":mode.name(),"rnd":hx(rnd)}),
         }
@@ -203,7 +206,7 @@ impl Op {
             "pk_to_bytes" => Op::PkToBytes { src: u("src")? },
             "deliver_as_other_mode" => Op::DeliverAs { t: u("tuple")?, mode: Mode::from_name(v["mode"].as_str()?)? },
             "deliver_reframed" => Op::DeliverReframed { t: u("tuple")?, split: u("split")? },
-            "deliver_cross_protocol" => Op::DeliverCross { t: u("tuple")? },
+            "deliver_cross_protocol" => Op::DeliverCross { t: u("tuple")?, shift: v["shift"].as_u64().unwrap_or(0) as u8, full: v["full"].as_bool().unwrap_or(false) },
             "deliver_overlong_context" => Op::DeliverLongCtx { t: u("tuple")?, kind: v["kind"].as_u64()? as u8 },
             "sign_over_wrapped_length_byte" => Op::SignWrapped { sk: u("sk")?, msg: unhx(&v["msg"]), ctx_len: u("ctx_len")?, mode: Mode::from_name(v["mode"].as_str()?)?, rnd: unhx32(&v["rnd"]) },
             _ => return None,
@@ -231,6 +234,9 @@ struct Tuple {
     sig: Vec<u8>,
     /// signed by an honest private-key replica
     honest: bool,
+    /// the signer accepted a context longer than 255 bytes (itself a C07 violation); kept so that the
+    /// channel can re-frame it, never expected to verify as it is
+    overlong: bool,
 }
 
 #[derive(Clone, Debug)]
@@ -444,8 +450,9 @@ pub fn execute(set: &dyn DynSet, xi: &[u8; 32], xi_other: &[u8; 32], ops: &[Op],
                             }
                         }
                     }
-                    Some(Ok(_)) if ctx.len() > 255 => {
+                    Some(Ok(sig)) if ctx.len() > 255 => {
                         finds.push(Finding { prop: "C07", invariant: "signer-accepts-overlong-context".into(), at_op: i, observed: format!("signing ({}) with a {}-byte context returned a signature", mode.name(), ctx.len()), expected: "Err".into() });
+                        tuples.push(Tuple { msg: msg.clone(), ctx: ctx.clone(), mode: *mode, sig, honest, overlong: true });
                     }
                     Some(Ok(sig)) => {
                         if honest && !*via_os {
@@ -458,7 +465,7 @@ pub fn execute(set: &dyn DynSet, xi: &[u8; 32], xi_other: &[u8; 32], ops: &[Op],
                             }
                         }
                         st.sigs.insert(format!("{}|sign|{}|depth{}|{}|m{}|c{}", info.name, mode.name(), prov_depth(&prov).min(3), if honest { "honest" } else { "tainted" }, len_class(msg.len()), len_class(ctx.len())));
-                        tuples.push(Tuple { msg: msg.clone(), ctx: ctx.clone(), mode: *mode, sig, honest });
+                        tuples.push(Tuple { msg: msg.clone(), ctx: ctx.clone(), mode: *mode, sig, honest, overlong: false });
                     }
                 }
             }
@@ -490,10 +497,13 @@ pub fn execute(set: &dyn DynSet, xi: &[u8; 32], xi_other: &[u8; 32], ops: &[Op],
                     st.verifies += 1;
                     let Some(dec) = guard!(i, "verify", p.obj.verify(&msg, &sig, &ctx, tu.mode)) else { continue };
                     st.sigs.insert(format!("{}|verify|{}|{}|depth{}|{}|{}|{}", info.name, tu.mode.name(), if p.derived { "derived" } else { "loaded" }, prov_depth(&p.prov).min(3), if p.honest { "honest" } else { "tainted" }, if intact { "intact" } else { "faulted" }, dec));
+                    if ctx.len() > 255 && dec {
+                        finds.push(Finding { prop: "C07", invariant: "verifier-accepts-overlong-context".into(), at_op: i, observed: format!("verification ({}) with a {}-byte context returned true (replica `{}`)", tu.mode.name(), ctx.len(), p.prov), expected: "verification returns false".into() });
+                    }
                     if !p.honest {
                         continue;
                     }
-                    if intact && tu.honest && !dec && !tu.ctx.is_empty() {
+                    if intact && tu.honest && !tu.overlong && !dec && !tu.ctx.is_empty() {
                         // does the rejection depend on the context? re-sign the same message with the
                         // reference key under an empty context and ask the same replica
                         let probe = catch(|| {
@@ -503,7 +513,7 @@ pub fn execute(set: &dyn DynSet, xi: &[u8; 32], xi_other: &[u8; 32], ops: &[Op],
                             finds.push(Finding { prop: "C07", invariant: "legal-context-rejected".into(), at_op: i, observed: format!("intact {} tuple with a {}-byte context rejected by replica `{}` although the same message with an empty context is accepted", tu.mode.name(), ctx.len(), p.prov), expected: "every context of 0..255 bytes is accepted".into() });
                         }
                     }
-                    if intact && tu.honest && !dec {
+                    if intact && tu.honest && !tu.overlong && !dec {
                         finds.push(Finding { prop: "C01", invariant: "honest-tuple-rejected".into(), at_op: i, observed: format!("intact {} tuple (message {} bytes, context {} bytes) rejected by public-key replica `{}`", tu.mode.name(), msg.len(), ctx.len(), p.prov), expected: "verification returns true".into() });
                     }
                     if let Some(rd) = ref_dec {
@@ -547,7 +557,7 @@ pub fn execute(set: &dyn DynSet, xi: &[u8; 32], xi_other: &[u8; 32], ops: &[Op],
                 let (t, what): (usize, &str) = match op {
                     Op::DeliverAs { t, .. } => (*t, "another mode's endpoint"),
                     Op::DeliverReframed { t, .. } => (*t, "another ctx/message boundary"),
-                    Op::DeliverCross { t } => (*t, "the pure endpoint with the formatted pre-hash input as message"),
+                    Op::DeliverCross { t, .. } => (*t, "the pure endpoint with the formatted input as message"),
                     Op::DeliverLongCtx { t, .. } => (*t, "the same endpoint with an over-long context"),
                     _ => unreachable!(),
                 };
@@ -573,9 +583,24 @@ pub fn execute(set: &dyn DynSet, xi: &[u8; 32], xi_other: &[u8; 32], ops: &[Op],
                         ctx = cat[..k].to_vec();
                         msg = cat[k..].to_vec();
                     }
-                    Op::DeliverCross { .. } => {
-                        let Some(fm) = formatted_prehash(tu.mode, &tu.msg) else { continue };
-                        msg = fm;
+                    Op::DeliverCross { shift, full, .. } => {
+                        if *full {
+                            // the signer's whole formatted input presented as the message, empty context
+                            let mut mp = vec![u8::from(tu.mode != Mode::Pure), (tu.ctx.len() % 256) as u8];
+                            mp.extend_from_slice(&tu.ctx);
+                            match formatted_prehash(tu.mode, &tu.msg) {
+                                Some(f) => mp.extend_from_slice(&f),
+                                None => mp.extend_from_slice(&tu.msg),
+                            }
+                            msg = mp;
+                            ctx = Vec::new();
+                        } else {
+                            let Some(fm) = formatted_prehash(tu.mode, &tu.msg) else { continue };
+                            // boundary moved `shift` bytes into OID || PH(M)
+                            let sh = (*shift as usize).min(fm.len()).min(255usize.saturating_sub(tu.ctx.len()));
+                            ctx.extend_from_slice(&fm[..sh]);
+                            msg = fm[sh..].to_vec();
+                        }
                         mode = Mode::Pure;
                     }
                     Op::DeliverLongCtx { kind, .. } => match kind % 4 {
@@ -757,7 +782,7 @@ pub fn gen_history(p: &mut Prng, set: &dyn DynSet) -> Vec<Op> {
             }
             0 => Op::DeliverAs { t: p.usize_below(8), mode: *p.pick(&MODES) },
             1 => Op::DeliverReframed { t: p.usize_below(8), split: match p.below(5) { 0 => *p.pick(&[256usize, 257, 300, 512]), 1 => p.usize_below(4), 2 => *p.pick(&[10_000usize, 10_001, 20_000]), _ => p.usize_below(256) } },
-            2 => Op::DeliverCross { t: p.usize_below(8) },
+            2 => Op::DeliverCross { t: p.usize_below(8), shift: *p.pick(&[0u8, 0, 1, 2, 11]), full: p.chance(1, 4) },
             _ => continue,
         };
         ops.push(op);
@@ -805,7 +830,8 @@ pub fn gen_size_ladder(p: &mut Prng) -> Vec<Op> {
             for m2 in MODES {
                 ops.push(Op::DeliverAs { t, mode: m2 });
             }
-            ops.push(Op::DeliverCross { t });
+            ops.push(Op::DeliverCross { t, shift: 0, full: false });
+            ops.push(Op::DeliverCross { t, shift: 1, full: false });
         }
     }
     ops
